@@ -724,6 +724,18 @@ def check_order(w, i, t, op, items):
 
 
 def check_pages(w, i, t, op, o, checks):
+    try:
+        check_pages_(w, i, t, op, o, checks)
+    finally:
+        # the deletion of the boundary item is a state change whatever was found wrong with the pages
+        pages = o["pages"]
+        if op.get("delAfter") is not None and len(pages) > op["delAfter"] and pages[op["delAfter"]]["lek"]:
+            dk = keytuple(t.schema, pages[op["delAfter"]]["lek"])
+            if dk is not None:
+                t.items.pop(dk, None)
+
+
+def check_pages_(w, i, t, op, o, checks):
     if "pages" not in checks:
         # the deletion of the boundary item is a state change whatever is being checked
         pages = o["pages"]
@@ -746,7 +758,9 @@ def check_pages(w, i, t, op, o, checks):
     got = [it for p in pages for it in p["items"]]
     seen = set()
     for it in got:
-        r = repr(canon_item(it))
+        # an item is identified by its primary key (the whole item when the key attributes were projected away)
+        kt = keytuple(t.schema, it)
+        r = repr(kt if kt is not None else canon_item(it))
         if r in seen:
             w.flag(i, "pages-duplicate", "an item is returned twice across pages")
             return
